@@ -163,6 +163,8 @@ func checkC08(c *Check) {
 
 	// ---------- 4: output collector ----------
 	checkPipeCollector(c)
+	// the parameters acted upon are those of this request (no field inherited from the previous message)
+	checkFreshDecode(c, "5/request-is-fresh")
 }
 
 func checkGetRlimit(c *Check, fn *ssa.Function) {
